@@ -315,6 +315,11 @@ var (
 	intNext  int
 )
 
+// CheckpointNow, when set by the main program, writes what has been recorded so far to the partial result file at once
+// (besides the periodic checkpoint): a check calls it before a section in which a defect of the code under test may kill
+// the whole process, so that the findings of the sections before it survive.
+var CheckpointNow = func() {}
+
 // OnInterrupt registers f to be run when the process is told to stop (SIGTERM / SIGINT), before the partial result
 // is written: a check that keeps findings outside its Result (a child process it is waiting for) brings them in
 // there.  The returned function removes the registration.
